@@ -15,6 +15,7 @@ CONSTANTS
   Extra,      \* further writes offered: a set of packet sequences (bursts, aliased publishes, big packets)
   Outcomes,   \* handler outcomes offered: subset of {"ok","err","nack"}
   Imm,        \* BOOLEAN: handlers may also complete inside the call (pre-armed)
+  Ends,       \* connection-ending causes offered: subset of {"peer_close", "raw", "close", "force"}
   Strict      \* > 0: the universe contains no protocol violation the monitor cannot classify (ProtoMon `strict`)
 
 Mon == INSTANCE ProtoMon
@@ -27,7 +28,7 @@ Cfg(k, n) == E("cfg", k, 0, 0, 0, 0, n, "")
 InitMon == Mon!StepAll(Mon!Init,
             << E("reset", Role, 0, 0, Ver, 0, 0, Role),
                Cfg("max_qos", MaxQos), Cfg("max_receive", IF Ver = 3 THEN MaxRecv ELSE 16),
-               Cfg("max_receive_size", MaxRecvSize), Cfg("strict", Strict) >>
+               Cfg("max_receive_size", MaxRecvSize), Cfg("strict", Strict), Cfg("gate_stop", IF GateStop THEN 1 ELSE 0) >>
             \o (IF Ver = 5 /\ RecvMax > 0 THEN << Cfg(IF Role = "server" THEN "ack_receive_max" ELSE "client_receive_max", RecvMax) >> ELSE << >>)
             \o (IF Ver = 5 THEN << Cfg(IF Role = "server" THEN "max_topic_alias" ELSE "client_topic_alias_max", AliasMax) >> ELSE << >>)
             \o << IF Role = "server" THEN E("out", "CONNACK", 0, 0, 0, 0, 0, "")
@@ -57,8 +58,15 @@ In(pk, arm) ==
   /\ \E ch \in {0, 1} : Take(DoIn(st, pk, arm, ch))
   /\ hist' = Append(hist, [a |-> "in", pk |-> pk, arm |-> arm, h |-> 0, o |-> ""])
 
+End(k) ==
+  /\ st.alive /\ k \in Ends
+  /\ \A i \in 1..Len(st.rbuf) : st.rbuf[i].kind # "raw"      \* (undecodable bytes wait unread at most once)
+  /\ Take(DoEnd(st, k))
+  /\ hist' = Append(hist, [a |-> "x", pk |-> << >>, arm |-> << >>, h |-> 0, o |-> EndTok(st, k)])
+
 Complete(gi, o) ==
-  /\ st.alive /\ gi \in 1..Len(st.gates)
+  /\ st.phase \in {"run", "stop"} /\ gi \in 1..Len(st.gates)
+  /\ (st.gates[gi].kind = "stop" => o = "ok")
   /\ (st.gates[gi].kind # "pub" => o = "ok" \/ "err" \in Outcomes)
   /\ \E ch \in {0, 1} : Take(DoComplete(st, gi, o, ch))
   /\ hist' = Append(hist, [a |-> "c", pk |-> << >>, arm |-> << >>, h |-> st.gates[gi].h, o |-> o])
@@ -67,6 +75,7 @@ Arms == {<< >>} \cup (IF Imm THEN {<< o >> : o \in Outcomes} ELSE {})
 Next ==
   \/ \E pk \in Writes, arm \in Arms : In(pk, arm)
   \/ \E gi \in 1..Len(st.gates), o \in Outcomes : Complete(gi, o)
+  \/ \E k \in Ends : End(k)
 
 Spec == Init /\ [][Next]_vars
 
@@ -92,10 +101,15 @@ KPub2 == {"pub2"}
 KIds == {"pub1", "pub2", "pubrel", "sub"}
 KLim == {"pub1", "pub0", "ping"}
 KLimBig == {"pub1", "big1", "long1", "ping"}
+KEnd == {"pub1", "pub2", "pubrel", "sub", "ping"}
+OErr == {"ok", "err"}
 OOk == {"ok"}
 OAll == {"ok", "err", "nack"}
 ONack == {"ok", "nack"}
 XNone == {}
+ENone == {}
+EAll == {"peer_close", "raw", "close", "force"}
+EPeer == {"peer_close", "raw"}
 \* bursts: two or three publishes decoded from one read
 XBurst == { << Pub(1, 1), Pub(1, 2) >>, << Pub(1, 1), Pub(1, 2), Pub(1, 3) >>, << Pub(0, 0), Pub(1, 3) >>, << Big(1, 1), Pub(1, 2) >> }
 XBurstCtl == XBurst \cup { << Ctl("ping", 0), Pub(1, 1) >>, << Pub(1, 1), Ctl("ping", 0), Pub(1, 2) >> }
